@@ -144,6 +144,14 @@ func runPlan(t *testing.T, sc *Scenario, plan *Plan, ch *simrt.Choices) (res Res
 		for _, p := range w.Net.Pipes {
 			fmt.Fprintf(os.Stderr, "PIPE %d addr=%s cut=%q c2s=%d bytes s2c=%d bytes closed=%v/%v\n", p.ID, p.Addr, p.CutBy, len(p.Dir(0).Log), len(p.Dir(1).Log), p.Ends[0].closed, p.Ends[1].closed)
 		}
+		if w.CS != nil {
+			for _, rr := range w.CS.routes {
+				fmt.Fprintf(os.Stderr, "ROUTE %+v\n", *rr)
+			}
+			for _, r := range w.CS.results {
+				fmt.Fprintf(os.Stderr, "RESULT caller=%d %s start=%v end=%v err=%q returned=%v\n", r.Caller, r.Form, r.StartT, r.EndT, r.Err, r.Returned)
+			}
+		}
 		fmt.Fprintf(os.Stderr, "LIVE at end: %v\nNOTES %v\nPROBES %v\n", w.LiveAtEnd, w.Notes, w.Probes)
 		for _, p := range run.Panics {
 			fmt.Fprintf(os.Stderr, "PANIC %s %s: %s\n%s\n", p.G, p.Site, p.Value, p.Stack)
